@@ -12,6 +12,8 @@ git diff -- . ':!MUTANT' > "$D/patch.diff"
 [ -s "$D/patch.diff" ] || { echo "empty patch"; exit 2; }
 cp -r MUTANT/* "$D"/ 2>/dev/null
 git diff -- . ':!MUTANT' > "$D/patch.diff"
+touch_changed() { git diff --name-only -- . ':!MUTANT' | xargs -r touch; grep '^+++ b/' "$D/patch.diff" | sed 's#^+++ b/##' | xargs -r touch; }
+touch_changed
 cargo build -p brush-shell --offline >/dev/null 2>&1 || { echo "build failed with change"; exit 2; }
 demo=$(ls MUTANT/demo.sh 2>/dev/null)
 # demos differ in how they want to be run: by bash with the brush path as argument/BRUSH, or by brush itself
@@ -35,9 +37,11 @@ PY
 )
 # (no `git stash`: the stash is shared by all worktrees of a repository)
 git apply -R "$D/patch.diff" || { echo "cannot revert patch"; exit 2; }
+touch_changed
 cargo build -p brush-shell --offline >/dev/null 2>&1
 without=$(run_demo)
 git apply "$D/patch.diff"
+touch_changed
 python3 - "$D" "$PROP" "$with" "$without" "$suite" <<'PY'
 import json, sys, os
 d, prop, w, wo, suite = sys.argv[1:6]
